@@ -13,7 +13,9 @@ DIM = "ndarray::impl_methods::<impl ndarray::ArrayBase<S, D>>::dim"
 
 def row_operation_width(ck, F, rule, fn, floor=3):
     b = F.body(fn)
-    t = Tracer(F, r"ndarray::impl_methods::<impl ndarray::ArrayBase<S, D>>::swap", mode="int")
+    # private helpers of the module (e.g. an extracted "subtract a multiple of the pivot row") are expanded at their call sites
+    t = Tracer(F, r"ndarray::impl_methods::<impl ndarray::ArrayBase<S, D>>::swap", mode="int",
+               inline=lambda p: F.bodies.get(p) if p and p.startswith("linalg::") and p != fn else None)
     env = {}
     t.bind(b.params[0], var("array"), env)
     try:
@@ -45,7 +47,9 @@ def row_operation_width(ck, F, rule, fn, floor=3):
         if ok:
             lo = inner[2]
             la = single_atom(lo) if isinstance(lo, Poly) else None
-            lo_ok = la is not None and la[0] == "v" and (any(l[0] == "range" and l[1] == la[1] for l in e.loops[:-1]) or la[1].split("@")[0] in ("j",))
+            # an enclosing loop's variable, or a loop-carried column counter of a `while` elimination
+            lo_ok = la is not None and la[0] == "v" and (any(l[0] == "range" and l[1] == la[1] for l in e.loops[:-1]) or
+                                                         (la[1].endswith("@loop") and any(l[0] in ("while", "loop") for l in e.loops[:-1])))
         ck.inst(rule, "%s:row-op#%d:%s" % (fn.rsplit("::", 1)[-1], n, kind), ok and lo_ok, e.site,
                 "%s over columns %r..%r ; required pivot column .. number of columns (whole remaining row)" % (
                     kind, inner[2] if inner else None, inner[3] if inner else None))
